@@ -87,6 +87,13 @@ impl Block {
     pub(crate) fn read(&self, in_block_offset: u64) -> std::io::Result<(Entry, usize)> {
         let mut meta_buffer = vec![0; PREFIX_META_SIZE];
         let file_offset = self.offset + in_block_offset;
+        // a block filled to within less than one header of the end of its file has no entry here
+        if file_offset.saturating_add(PREFIX_META_SIZE as u64) > self.mmap.len() as u64 {
+            return Err(std::io::Error::new(
+                std::io::ErrorKind::InvalidData,
+                "entry header reaches past the end of the file",
+            ));
+        }
         self.mmap.read(file_offset as usize, &mut meta_buffer);
 
         // Read the actual metadata length from first 2 bytes
